@@ -195,7 +195,7 @@ Fixpoint session (c : cpd) (ops : list (nat * list nat * list (var * name))) : l
       match res with
       | inl (inr c') => SL [of_nat 0; of_cpd c'; of_bool (is_valid_cpd c')] :: session c' r
       | inl (inl e) => SL [of_nat 1; SZ (err_code e)] :: session c r
-      | inr oc => [SL [of_nat 2; of_ocpd oc]]
+      | inr oc => [SL [of_nat 2; of_ocpd oc; of_bool (is_valid_ocpd oc)]]
       end
   end.
 
@@ -205,6 +205,72 @@ Definition run_c05_session (s : sx) : sx :=
       match sx_list dec_op sops with
       | Some ops => with_cpd a (fun c => sx_ok (SL (session c ops)))
       | None => bad_request
+      end
+  | _ => bad_request
+  end.
+
+(* ---- tables with non-finite entries: an entry travels as [] (non-finite) or [q] -------------------- *)
+Definition sx_oQc (s : sx) : option (option Qc) :=
+  match s with
+  | SL [] => Some None
+  | SL [q] => option_map Some (sx_Qc q)
+  | _ => None
+  end.
+Definition dec_octor (s : sx) : option (err + ocpd) :=
+  match s with
+  | SL [sv; sc; sr; se; sec; ssn] =>
+      match sx_nat sv, sx_nat sc, sx_list (sx_list sx_oQc) sr, sx_list sx_nat se, sx_list sx_nat sec, sx_sn ssn with
+      | Some v, Some c, Some rows, Some ev, Some ec, Some sn => Some (mk_ocpd v c rows ev ec sn)
+      | _, _, _, _, _, _ => None
+      end
+  | _ => None
+  end.
+
+(* [octor] -> [ocpd ; is_valid_cpd] *)
+Definition run_c05_ovalid (s : sx) : sx :=
+  match s with
+  | SL [a] => match dec_octor a with
+              | Some (inr c) => sx_ok (SL [of_ocpd c; of_bool (is_valid_ocpd c)])
+              | Some (inl e) => sx_err (err_code e)
+              | None => bad_request
+              end
+  | _ => bad_request
+  end.
+
+(* [ctor] -> is_valid_cpd() after normalize(inplace=True) *)
+Definition run_c05_normvalid (s : sx) : sx :=
+  match s with
+  | SL [a] => with_cpd a (fun c => sx_ok (of_bool (is_valid_ocpd (normalize c))))
+  | _ => bad_request
+  end.
+
+(* like c05_bn, the CPD tables may hold non-finite entries *)
+Fixpoint add_all_o (b : bn) (nf : list var) (l : list (err + ocpd)) : option (bn * list var) :=
+  match l with
+  | [] => Some (b, nf)
+  | inr oc :: r =>
+      match add_cpd b (zeroed oc) with
+      | inr b' =>
+          let nf' := filter (fun v => negb (Nat.eqb v (child oc))) nf in      (* a replaced CPD loses its flag *)
+          add_all_o b' (match ocpd_finite oc with Some _ => nf' | None => child oc :: nf' end) r
+      | inl _ => None
+      end
+  | inl _ :: _ => None
+  end.
+Definition run_c05_bno (s : sx) : sx :=
+  match s with
+  | SL [sn; se; sc; sq] =>
+      match sx_list sx_nat sn, sx_list (sx_pair sx_nat sx_nat) se, sx_list dec_octor sc,
+            sx_list (sx_list (sx_pair sx_nat sx_Z)) sq with
+      | Some ns, Some es, Some cs, Some qs =>
+          match add_all_o {| bg := {| nodes := ns; edges := es |}; bcpds := [] |} [] cs with
+          | Some (b, nf) =>
+              sx_ok (SL [of_nat (cm_code (check_model_nf b nf));
+                         of_list (fun q => of_gsp (get_state_probability_nf b nf q)) qs;
+                         of_list (of_pair of_nat of_nat) (get_cardinality b)])
+          | None => sx_err 5
+          end
+      | _, _, _, _ => bad_request
       end
   | _ => bad_request
   end.
